@@ -435,9 +435,8 @@ func (e *fnEnc) binop(op token.Token, X, Y ssa.Value, resT types.Type, pos token
 			e.vc.def(fmt.Sprintf("(and (= (s-off %s) 0) (= (s-len %s) (+ (s-len %s) (s-len %s))))", n, n, x, y))
 			return n
 		case token.LSS, token.LEQ, token.GTR, token.GEQ:
-			e.vc.declFun("strcmp", "(Str Str) Int")
-			c := fmt.Sprintf("(strcmp %s %s)", x, y)
-			return fmt.Sprintf("(%s %s 0)", map[token.Token]string{token.LSS: "<", token.LEQ: "<=", token.GTR: ">", token.GEQ: ">="}[op], c)
+			// strord is an order embedding of the (finitely many) strings of a query into Int
+			return fmt.Sprintf("(%s (strord %s) (strord %s))", map[token.Token]string{token.LSS: "<", token.LEQ: "<=", token.GTR: ">", token.GEQ: ">="}[op], x, y)
 		}
 	case isBool(T):
 		switch op {
@@ -487,7 +486,6 @@ func (e *fnEnc) equal(x, y string, T, YT types.Type, X, Y ssa.Value) string {
 			}
 			t := fmt.Sprintf("(streq %s %s)", x, y)
 			e.vc.def(fmt.Sprintf("(=> %s (= (s-len %s) (s-len %s)))", t, x, y))
-			e.vc.def(fmt.Sprintf("(=> (= %s %s) %s)", x, y, t))
 			e.vc.def(fmt.Sprintf("(=> (and (= (s-len %s) 0) (= (s-len %s) 0)) %s)", x, y, t))
 			return t
 		}
